@@ -677,6 +677,115 @@ def run_relink(case, r):
         env.rm(path)
 
 
+def run_copyrelink(case, r):
+    """Copies that keep the id of their original (the default of copy_from / copy_section): a tag copied into another
+    block, the referenced array copied there too, the copy of the tag re-linked to the copy of the array; a metadata
+    link re-pointed from a section to its kept-id copy.  What is reached through the link afterwards is the entity that
+    was linked LAST (not an equal-looking one): a change through either path shows through the other, also after reopening."""
+    env.install_seams()
+    env.reset_execution()
+    path = env.fresh_path("c05f_")
+    f = nix.File.open(path, nix.FileMode.Overwrite)
+    try:
+        b1 = f.create_block("b1", "t")
+        a = b1.create_data_array("signal", "t", data=np.array([1.0, 2.0, 3.0]), unit="mV", label="orig")
+        pos = b1.create_data_array("pos", "t", data=np.array([0.0, 1.0]))
+        t = b1.create_tag("tag", "t", [0.0])
+        t.references.append(a)
+        t.create_feature(a, nix.LinkType.Untagged)
+        mt = b1.create_multi_tag("mt", "t", pos)
+        mt.references.append(a)
+        g = b1.create_group("grp", "t")
+        g.data_arrays.append(a)
+        s = f.create_section("s", "t")
+        s["p"] = 1
+        a.metadata = s
+        b2 = f.create_block("b2", "t")
+        t2 = b2.create_tag(copy_from=t)
+        mt2 = b2.create_multi_tag(copy_from=mt)
+        g2 = b2.create_group("grp", "t")
+        a2 = b2.create_data_array(copy_from=a)
+        pos2 = b2.create_data_array(copy_from=pos)
+        r.transitions += 5
+        steps = [("tag.references", lambda: t2.references.append(a2), lambda ff: ff.blocks["b2"].tags["tag"].references["signal"]),
+                 ("multi_tag.references", lambda: mt2.references.append(a2), lambda ff: ff.blocks["b2"].multi_tags["mt"].references["signal"]),
+                 ("group.data_arrays", lambda: g2.data_arrays.append(a2), lambda ff: ff.blocks["b2"].groups["grp"].data_arrays["signal"]),
+                 ("multi_tag.positions", lambda: setattr(mt2, "positions", pos2), lambda ff: ff.blocks["b2"].multi_tags["mt"].positions),
+                 ("feature.data", lambda: setattr(t2.features[0], "data", a2), lambda ff: ff.blocks["b2"].tags["tag"].features[0].data)]
+        marks = {}
+        for i, (label, link, reach) in enumerate(steps):
+            try:
+                link()
+            except Exception as e:  # noqa
+                r.bump("copyrelink-refused:" + label)
+                continue
+            r.transitions += 1
+            r.evals += 1
+            r.nontrivial += 1
+            home = pos2 if label.endswith("positions") else a2
+            mark = "via-home-%d" % i
+            home.label = mark
+            marks[label] = (reach, home.name, mark)
+            got = reach(f).label
+            if got != mark:
+                r.viol("C05|copy-relink|%s|in-session|link-reaches-another-object" % label,
+                       "after %s was re-linked to the block's own kept-id copy, a label set on that copy reads %r through the link" % (label, got), {})
+                return
+            reach(f).label = "via-link-%d" % i
+            if home.label != "via-link-%d" % i:
+                r.viol("C05|copy-relink|%s|in-session|write-through-lost" % label,
+                       "a label set through %s did not reach the entity that was linked" % label, {})
+                return
+            home.label = mark
+        # the original block is untouched by all of this
+        if a.label != "orig" or f.blocks["b1"].tags["tag"].references["signal"].label != "orig":
+            r.viol("C05|copy-relink|original-changed", "changing the copies changed the original array", {})
+            return
+        # metadata: s -> kept-id copy of s below another section
+        other = f.create_section("other", "t")
+        s_copy = other.copy_section(s)
+        a2.metadata = s
+        a2.metadata = s_copy
+        r.transitions += 3
+        r.evals += 1
+        r.nontrivial += 1
+        s_copy["q"] = 2
+        if "q" not in a2.metadata or "q" in s:
+            r.viol("C05|copy-relink|metadata|in-session|link-reaches-another-object",
+                   "metadata re-pointed to the kept-id copy of the section: property added to the copy visible through the link: %r, in the first section: %r" % (
+                       "q" in a2.metadata, "q" in s), {})
+            return
+        f.close()
+        f = nix.File.open(path, nix.FileMode.ReadOnly)
+        for label, (reach, hname, mark) in marks.items():
+            r.evals += 1
+            home = f.blocks["b2"].data_arrays[hname]
+            if reach(f).label != home.label:
+                r.viol("C05|copy-relink|%s|reopened|link-reaches-another-object" % label,
+                       "after reopening, %s reaches an object with label %r, the block's array has %r" % (label, reach(f).label, home.label), {})
+                return
+        if "q" not in f.blocks["b2"].data_arrays["signal"].metadata:
+            r.viol("C05|copy-relink|metadata|reopened|link-reaches-another-object", "after reopening the metadata link reaches the first section", {})
+            return
+        r.traces += 1
+        r.outcomes.add("copyrelink-ok")
+    finally:
+        env.safe_close(f)
+        env.rm(path)
+
+
+def run_soak(case, r):
+    from mc import explorer as X
+    if case["which"] == -1:
+        h, hs_ = X.soak_two_handles()
+    else:
+        h = X.soak_histories()[case["which"]]
+        hp = case["hp"]
+        hs_ = None if hp is None else [hp[i % len(hp)] for i in range(len(h))]
+    X.run_history("C05", {"seed": "mini", "ops": h, "single": True, "h": hs_}, r, check_handles=True)
+
+
+
 def BOUNDS(tier):
     env.install_seams()
     return {"path_matrix": "all targets of the rich seed with >= 2 paths x menu x every path", "link_lists": 10,
@@ -709,10 +818,16 @@ def cases(tier):
     out.append({"k": "setlink"})
     out.append({"k": "relink"})
     out.append({"k": "manydims"})
+    out.append({"k": "copyrelink"})
+    # long histories with refused cross-block calls in the middle / member lists refilled (mc/explorer.soak_histories)
+    for which in (5, 6, -1):
+        for hp in (("explicit",) if which == -1 else (None, "A", "AB")):
+            out.append({"k": "soak", "which": which, "hp": hp})
     return out
 
 
 def run_case(case):
     r = R()
-    {"paths": run_paths, "accept": run_accept, "dimlink": run_dimlink, "setlink": run_setlink, "relink": run_relink, "manydims": run_manydims}[case["k"]](case, r)
+    {"paths": run_paths, "accept": run_accept, "dimlink": run_dimlink, "setlink": run_setlink, "relink": run_relink, "manydims": run_manydims,
+     "copyrelink": run_copyrelink, "soak": run_soak}[case["k"]](case, r)
     return r
